@@ -442,6 +442,31 @@ func (dec *Decoder) readReferred() interface{} {
 	return dec.refer.Read(index)
 }
 
+// peekReferred looks at the object the reference index at the read position
+// points at without consuming the index. ok is false when the index is not
+// completely buffered (a reader-backed decoder at a chunk boundary) or does not
+// point at anything.
+func (dec *Decoder) peekReferred() (o interface{}, ok bool) {
+	index := 0
+	i := dec.head
+	for ; i < dec.tail; i++ {
+		c := dec.buf[i]
+		if c == TagSemicolon {
+			break
+		}
+		if c < '0' || c > '9' {
+			return nil, false
+		}
+		if index = index*10 + int(c-'0'); index >= len(dec.refer.ref) {
+			return nil, false
+		}
+	}
+	if i >= dec.tail || i == dec.head {
+		return nil, false
+	}
+	return dec.refer.ref[index], true
+}
+
 // own decides whether data, a slice of the read buffer, may be handed out as it
 // is. When it ends exactly at the end of the buffered bytes of a reader-backed
 // decoder, the very next read refills the buffer in place and would overwrite
